@@ -92,7 +92,7 @@ def verify_unit(uname, extra=(), want_vac=True, tag=""):
         "unit_obj": unit, "crate": crate,
         "functions": unit.functions, "types": unit.types, "clauses": unit.clauses,
         "edits": unit.edits, "macro_rewrites": unit.macro_rewrites, "hints_lost": unit.hints_lost,
-        "count_only": unit.count_only,
+        "count_only": unit.count_only, "extract_failed": unit.extract_failed,
         "summary": summ, "failures": failures, "undecided": undecided,
         "cmd": main["cmd"], "trusted_scan": trusted_scan(unit.text()),
         "raw_err": main["raw_err"] if summ["tool_error"] else "",
@@ -301,7 +301,7 @@ def cmd_check(args):
                                 "mode": f["mode"], "backend": "verus/z3", "discharged": f["success"],
                                 "smt_us": f["time_us"], "rlimit": f["rlimit"]})
         for fn in u["functions"]:
-            if fn.get("kf") or fn["fn"] not in relevant:
+            if fn.get("kf") or fn["fn"] not in relevant or fn.get("stub"):
                 continue
             if u.get("count_only") is not None and fn["emitted_as"] not in u["count_only"]:
                 continue
@@ -316,6 +316,10 @@ def cmd_check(args):
         fnmeta = {fn["fn"]: fn for fn in u["functions"]}
         kf_expected = {fn["kf"]: fn for fn in u["functions"] if fn.get("kf")}
         kf_seen = set()
+        for fq, msg in u.get("extract_failed", {}).items():
+            if fq in relevant_functions(u, pid):
+                undecided_msgs.append("%s: %s could not be extracted (%s): emitted as an assumed stub, its own obligations are undecided" % (
+                    u["unit"], fq, msg[:240]))
         for fq, msgs in u.get("hints_lost", {}).items():
             if fq in relevant_functions(u, pid):
                 undecided_msgs.append("%s: proof scaffolding of %s no longer matches the code (%s); its obligations are undecided" % (
